@@ -50,8 +50,8 @@ Lemma SimNA_with_scope {A} s b b' (f f' : M A) :
   end -> SimNA f f' -> SimNA (with_scope s b f) (with_scope s b' f').
 Proof.
   intros Hb Hf. unfold with_scope. apply SimNA_get_bind; intros c c' H.
-  assert (HS : current_scope c = current_scope c' /\ current_scope_nx c = current_scope_nx c') by (unfold E, core in H; inversion H; auto).
-  destruct HS as [H1 H2]. rewrite H1, H2.
+  assert (HS : current_scope c = current_scope c' /\ current_scope_nx c = current_scope_nx c' /\ next_macro_scope_id c = next_macro_scope_id c') by (unfold E, core in H; inversion H; auto).
+  destruct HS as (H1 & H2 & H3). rewrite H1, H2, H3.
   apply SimNA_bind; [apply SimNA_of_SimM; apply sim_modify; intros; apply core_enter; assumption|intro].
   apply SimNA_bind; [apply SimNA_of_SimM; destruct b, b'; try contradiction; [destruct Hb as [-> _]; apply sim_scope_symbol|apply sim_ret]|intro].
   apply SimNA_finally; [exact Hf|].
